@@ -689,6 +689,13 @@ func c19Readers(iters int, seed int64, repo string) int {
 		byOp, total := c19Queries(ms, twin)
 		nq += total
 		opsPer := 40 + total/2
+		var rootPrints []*c19Query
+		for i := range byOp[opPrint] {
+			if byOp[opPrint][i].ctx.Parent == nil {
+				rootPrints = append(rootPrints, &byOp[opPrint][i])
+			}
+		}
+		sort.SliceStable(rootPrints, func(a, b int) bool { return len(rootPrints[a].want) > len(rootPrints[b].want) })
 		seeds := make([]int64, c19N)
 		for g := range seeds {
 			seeds[g] = rnd.Int63()
@@ -717,6 +724,9 @@ func c19Readers(iters int, seed int64, repo string) int {
 						continue
 					}
 					q := &qs[r.Intn(len(qs))]
+					if op == opPrint && k < 7 && len(rootPrints) > 0 {
+						q = rootPrints[(k-4)%len(rootPrints)] // all goroutines print the same fresh module now
+					}
 					cnt[op]++
 					if got := c19Run(ms, q); got != q.want {
 						mu.Lock()
@@ -756,13 +766,26 @@ func c19Readers(iters int, seed int64, repo string) int {
 
 // ------------------------------------------------------------------------------- mode errsets
 
-const c19NErrSets = 7
+const c19NErrSets = 13
 
 // c19ErrSet: a module set of its own (own file names, own line numbers) whose Process reports errors.
 // The sets share the TEXT of the offending constructs -- whatever the library remembers about such a construct
 // must not leak from one set into another.
 func c19ErrSet(k int) c19Set {
 	K := strconv.Itoa(k)
+	if k >= 7 {
+		// 7..9: the load is REJECTED while a statement is being built (unknown substatement after `type`), at
+		// nesting depth 0..2;  10..12: a leaf WITHOUT its required type at depth 0..2 (must be rejected too).
+		// Whatever the builder keeps between statements must not travel from one load to another.
+		d := (k - 7) % 3
+		open, close := strings.Repeat("  container c"+K+" {\n", d), strings.Repeat("  }\n", d)
+		leaf := "  leaf victim { type string; description \"d\"; no-such-substatement x; }\n"
+		if k >= 10 {
+			leaf = "  leaf typeless { description \"no type here\"; }\n  typedef alsotypeless { description \"nor here\"; }\n"
+		}
+		text := "module shape-" + K + " {\n  namespace \"urn:shape:" + K + "\";\n  prefix s" + K + ";\n" + strings.Repeat("\n", k-7) + open + leaf + close + "}\n"
+		return c19Set{label: "shape-" + K, srcs: []c19Src{{"shape-" + K + ".yang", text}}}
+	}
 	pad := strings.Repeat("\n", k)
 	ext := "module openconfig-extensions {\n  namespace \"urn:oc-ext\";\n  prefix oc-ext;\n  extension posix-pattern { argument pattern; }\n}\n"
 	var body strings.Builder
@@ -784,7 +807,7 @@ func c19ErrSet(k int) c19Set {
 	}
 	body.WriteString("  leaf viatd { type t" + K + "; }\n")
 	body.WriteString(pad + "  leaf dflt { type enumeration { enum a; enum b; } default c; }\n")
-	if k == c19NErrSets-1 { // and one set without any error
+	if k == 6 { // and one set without any error
 		body.Reset()
 		body.WriteString("  leaf fine { type string { oc-ext:posix-pattern \"^[0-9a-f]+$\"; } }\n")
 	}
